@@ -740,6 +740,39 @@ func runStorePlan(p *Plan, prop string, timeouts bool) *Result {
 		if op.Kind == "timeouts" {
 			continue
 		}
+		if op.Kind == "keepalive" {
+			// keep one session in use (every idle/2) until just before its ABSOLUTE limit, then step over it:
+			// activity must extend the idle limit only
+			id := fmt.Sprintf("sess-%d", op.B)
+			model := e.memModel
+			if op.S != "mem" {
+				model = e.redModel
+			}
+			if abs <= 0 || idle < 4*time.Second || idle >= abs || abs/idle > 400 {
+				continue
+			}
+			e.apply(op.ID, storeOp{Kind: "settok", Store: op.S, ID: id, Tok: genTokenValue(NewRng(p.SchedSeed^uint64(op.ID)), op.ID, time.Now())})
+			for k := 0; k < 900 && len(e.viol) == 0; k++ {
+				ms := model[id]
+				if ms == nil {
+					break
+				}
+				left := time.Until(ms.Created.Add(abs))
+				if left < idle/2+3*time.Second {
+					if left > 3*time.Second {
+						e.apply(op.ID, storeOp{Kind: "adv", D: left - 2*time.Second})
+						e.apply(op.ID, storeOp{Kind: "gettok", Store: op.S, ID: id})
+					}
+					e.apply(op.ID, storeOp{Kind: "adv", D: 4 * time.Second})
+					e.apply(op.ID, storeOp{Kind: "gettok", Store: op.S, ID: id})
+					e.probes["kept-alive-up-to-the-absolute-limit"]++
+					break
+				}
+				e.apply(op.ID, storeOp{Kind: "adv", D: idle / 2})
+				e.apply(op.ID, storeOp{Kind: []string{"gettok", "gettok", "settok", "getstate"}[k%4], Store: []string{op.S, op.S, op.S}[k%3], ID: id, Tok: genTokenValue(NewRng(p.SchedSeed^uint64(op.ID*1000+k)), op.ID*1000+k, time.Now())})
+			}
+			continue
+		}
 		so := storeOp{Kind: op.Kind, Store: op.S, ID: fmt.Sprintf("sess-%d", op.B), D: time.Duration(op.D) * time.Second}
 		if op.Kind == "adv-ms" {
 			so.Kind, so.D = "adv", time.Duration(op.D)*time.Millisecond
